@@ -12,7 +12,7 @@ E_TZSTR_ZONE, E_TZSTR_UTC, E_TZSTR_WALL = 10, 11, 12
 E_TZRANGE_ZONE, E_TZRANGE_UTC, E_TZRANGE_WALL = 13, 14, 15
 E_PARSE, E_TRANS = 16, 17
 E_SPEC_UTC, E_SPEC_WALL, E_RENDER, E_GUARDS, E_EVENTS, E_LOCAL_WALL, E_SPEC_FOLD = 20, 21, 22, 23, 24, 25, 26
-E_ICAL_UTC, E_ICAL_WALL, E_ICAL_CACHED, E_ICAL_PARSE, E_ICAL_OFFSET, E_ICAL_GET = 30, 31, 32, 33, 34, 35
+E_ICAL_UTC, E_ICAL_WALL, E_ICAL_CACHED, E_ICAL_PARSE, E_ICAL_OFFSET, E_ICAL_GET, E_ICAL_CONC = 30, 31, 32, 33, 34, 35, 36
 
 ERR = {1: "ValueError", 2: "TypeError", 3: "IndexError", 9: "OutOfFuel"}
 
